@@ -250,8 +250,11 @@ CLAIMED = {
               "continuous through year 0. Tables regenerated from class Calendar each run. The model is tied to the code by "
               "an enumerated correspondence (every day and every near-invalid date of the catalogue years, 800 year boundaries) "
               "and the implementation's outputs are judged by the proved Spec functions."),
-        note="Day-by-day list walks over iter_months_days are modelled at month granularity; the bounded search in _get_days_in_year_range by its closed form.",
-        technique="Coq proof of refinement to a closed-form calendar + generated tables + enumerated model/implementation correspondence",
+        note=("The function BODIES of every calendar helper are translated from /repo on every run and proved equal to the model for all arguments: "
+              "the integer helpers and _get_days_in_year_range's bounded search (gen/GenCode.v, C03_code) and the day-by-day walks over "
+              "iter_months_days - the six conversions, the week-year start, weeks in a year (gen/GenCode2.v, Props/C03Code.v, 25 theorems); the model "
+              "holds the walks at month granularity / closed forms. Props/C03Tables.v ties the derived calendar constants to set_mode's own expressions."),
+        technique="Coq proof of refinement to a closed-form calendar + function bodies translated from the source and proved equal to the model + generated tables + enumerated correspondence",
         design="7 C03"),
 }
 
